@@ -16,7 +16,7 @@ embedder's `Clients::disconnect(endpoint, Some(id) | None)` may fall anywhere af
    `relay.accept.admitted:<endpoint>` (between authorize_with and Clients::register), the connection
    id comes from the recording AccessControl, `clients().disconnect(..)` is called at the word's
    position, the pause point is released and the `relay.accept.registered` event awaited.  Then every
-   connection is probed (ping -> pong within 3 s, datagram from the bystander delivered).  The model's
+   connection is probed (ping -> pong within 10 s, datagram from the bystander delivered).  The model's
    `served` map for the required design is the oracle.
 
 VIOLATION: a connection the model says is revoked still answers pings (`revoked_still_served`), or a
@@ -55,7 +55,7 @@ META = {
             "that a revoked connection is never served afterwards and eventually leaves the registry while others are "
             "untouched.  Each complete schedule is then imposed on a real Server::spawn with real clients by holding the "
             "accept task at the pause point, and the revoked / untouched connections are probed with pings and datagrams.",
-    "note": "\"Stops being served\" is read as: a ping sent after the schedule gets no pong (stream closed or 3 s silence).  "
+    "note": "\"Stops being served\" is read as: a ping sent after the schedule gets no pong (stream closed or 10 s silence).  "
             "Same-endpoint connections are admitted and released in FIFO order (pause gate is per endpoint).  Bounded: 2 "
             "(quick) / 3 (thorough) connections, 1 / 2 disconnect requests.",
     "design_ref": "§6 C08, §7, Appendix A.6",
@@ -110,6 +110,20 @@ def judge(ctx, c, o):
     return n
 
 
+class _Quiet:
+    """A stand-in for ctx that swallows reports (used by the binding self-test)."""
+    def __init__(self):
+        self.reports = []
+
+    def report(self, sig, what, replay_obj):
+        self.reports.append(sig)
+        return "violation"
+
+
+def _shadow(ctx):
+    return _Quiet()
+
+
 def execute(ctx, cases, name):
     inp = ctx.write_ndjson(name + ".in", cases)
     outp = ctx.path(name + ".out")
@@ -161,8 +175,23 @@ def run(ctx):
             ctx.sample({"word": wstr(c["word"]), "model_served": c["served"], "probe": o["probe"],
                         "disconnect_returned": o["rets"], "datagram_forwarded": o["fwd"], "access_control": o["ac"]})
     ctx.cov["schedules_by_window"] = stats
+    # binding self-test: flipped expectations must be rejected by the judge
+    caught = tried = 0
+    for c, o in zip(cases, obs):
+        if tried >= 6:
+            break
+        if any(o["probe"].get(n) != ("pong" if e else "closed") for n, e in c["served"].items()):
+            continue                      # only words on which model and implementation agree
+        for name in sorted(c["served"]):
+            c2 = json.loads(json.dumps(c))
+            c2["served"][name] = not c2["served"][name]
+            tried += 1
+            caught += 1 if judge(_shadow(ctx), c2, o) else 0
+    if tried == 0 or caught != tried:
+        raise ToolError("binding self-test: %d of %d flipped expectations were caught" % (caught, tried))
+    ctx.cov["binding_selftests"] = {"flipped_expectations_caught": caught}
     ctx.cov["rule"] = ("every complete word over admit/register (per connection, FIFO per endpoint) and the disconnect "
                        "requests (by id, by endpoint) generated by TLC from RelayRevoke; all are non-trivial")
     ctx.cov["exhaustive"] = True
-    ctx.assume("a connection that neither answers a ping within 3 s nor is closed counts as not served")
+    ctx.assume("a connection that neither answers a ping within 10 s nor is closed counts as not served")
     ctx.assume("loopback TCP on 127.0.0.1 and the tokio scheduler deliver within the generous waits (20 s per step)")
